@@ -124,7 +124,7 @@ theorem hessTimesCore_congr (d20 d11 : K → K → K) (pf : K) (w : Img K) (κ :
 
 /-! ### the quadratic gradient is affine: `grad(λ + t e) = grad λ + t H e` -/
 
-theorem qGrad_linear (pf : K) (w : Img K) (κ : Option (Img K)) (b wb : Box) (lam e : Img K) (t : K) (hw0 : w 0 0 0 = 0)
+theorem qGrad_linear (pf : K) (w : Img K) (κ : Option (Img K)) (b wb : Box) (lam e : Img K) (t : K)
     (z y x : Int) :
     gradCore qD10 pf w κ b wb (fun z y x => lam z y x + t * e z y x) z y x
       = gradCore qD10 pf w κ b wb lam z y x + t * hessTimesCore qD20 qD11 pf w κ b wb lam e z y x := by
@@ -136,7 +136,7 @@ theorem qGrad_linear (pf : K) (w : Img K) (κ : Option (Img K)) (b wb : Box) (la
   simp only [qD10, qD20, qD11]
   by_cases hd : dz = 0 ∧ dy = 0 ∧ dx = 0
   · obtain ⟨rfl, rfl, rfl⟩ := hd
-    simp [hw0]
+    simp
   · rw [if_neg hd]; ring
 
 end
